@@ -717,4 +717,271 @@ theorem winv_stepAt (y : Sys State Thread Ev) (i : Nat) (h : WInv Wr y) :
 
 end Wrote
 
+
+/-! ## linearisation log -/
+
+/-- the map a sequential observer sees (fragment without expiring entries) -/
+def abs (st : Store) : Ref := fun k => (lookup k st).map (·.val)
+
+theorem abs_erase (k : Key) (st : Store) : abs (erase k st) = fun k' => if k' = k then none else abs st k' := by
+  funext k'
+  by_cases h : k' = k
+  · subst h; simp only [abs, lookup_erase_self, if_true]; rfl
+  · simp only [abs, lookup_erase_ne h, h, if_false]
+
+theorem abs_cons_erase (k : Key) (e : Entry) (st : Store) :
+    abs ((k, e) :: erase k st) = fun k' => if k' = k then some e.val else abs st k' := by
+  funext k'
+  by_cases h : k' = k
+  · subst h; simp only [abs, lookup_cons_self, if_true]; rfl
+  · simp only [abs, lookup_cons_ne h, lookup_erase_ne h, h, if_false]
+
+/-- the event an answered operation stands for -/
+def evOf : Op → Out → Option Ev
+  | .get k, .val o => some (.get k o)
+  | .contains k, .bool b => some (.contains k b)
+  | .put k v _, .unit => some (.put k v)
+  | .remove k, .bool b => some (.remove k b)
+  | .clear, .unit => some .clear
+  | _, _ => none
+
+def isClient : Ev → Bool
+  | .drop _ => false
+  | _ => true
+
+theorem startOp_lin {op : Op} (hs : NoShort s.store) :
+    Legal (abs s.store) (startOp cfg s op).2.2.2 ∧
+    abs (startOp cfg s op).1.store = applyAll (abs s.store) (startOp cfg s op).2.2.2 ∧
+    (startOp cfg s op).2.2.1.filterMap (evOf op) = (startOp cfg s op).2.2.2.filter isClient := by
+  cases op with
+  | get k =>
+    cases hl : lookup k s.store with
+    | none =>
+      rw [startOp_get_none cfg s hl]
+      refine ⟨⟨?_, trivial⟩, rfl, rfl⟩
+      show none = abs s.store k
+      simp only [abs, hl]; rfl
+    | some e =>
+      rw [startOp_get_hit cfg s hl (noShort_lookup hs hl)]
+      refine ⟨⟨?_, trivial⟩, ?_, rfl⟩
+      · show some e.val = abs s.store k
+        simp only [abs, hl]; rfl
+      · show abs ((k, _) :: erase k s.store) = abs s.store
+        rw [abs_cons_erase]
+        funext k'
+        by_cases h : k' = k
+        · subst h; simp only [if_true, abs, hl]; rfl
+        · simp only [h, if_false]
+  | contains k =>
+    cases hl : lookup k s.store with
+    | none =>
+      rw [startOp_contains_none cfg s hl]
+      refine ⟨⟨?_, trivial⟩, rfl, rfl⟩
+      show false = (abs s.store k).isSome
+      simp only [abs, hl]; rfl
+    | some e =>
+      rw [startOp_contains_hit cfg s hl (noShort_lookup hs hl)]
+      refine ⟨⟨?_, trivial⟩, rfl, rfl⟩
+      show true = (abs s.store k).isSome
+      simp only [abs, hl]; rfl
+  | put k v sh =>
+    rw [startOp_put]
+    exact ⟨trivial, rfl, rfl⟩
+  | remove k =>
+    cases hl : lookup k s.store with
+    | none =>
+      rw [startOp_remove_none cfg s hl]
+      refine ⟨⟨?_, trivial⟩, ?_, rfl⟩
+      · show false = (abs s.store k).isSome
+        simp only [abs, hl]; rfl
+      · show abs s.store = fun k' => if k' = k then none else abs s.store k'
+        funext k'
+        by_cases h : k' = k
+        · subst h; simp only [if_true, abs, hl]; rfl
+        · simp only [h, if_false]
+    | some e =>
+      rw [startOp_remove_some cfg s hl]
+      refine ⟨⟨?_, trivial⟩, ?_, rfl⟩
+      · show true = (abs s.store k).isSome
+        simp only [abs, hl]; rfl
+      · show abs (erase k s.store) = fun k' => if k' = k then none else abs s.store k'
+        exact abs_erase k s.store
+  | clear =>
+    rw [startOp_clear]
+    exact ⟨⟨trivial, trivial⟩, rfl, rfl⟩
+
+theorem contOp_lin {pc : Pc} (hpc : PcOk true pc) :
+    Legal (abs s.store) (contOp cfg vic s pc).2.2.2 ∧
+    abs (contOp cfg vic s pc).1.store = applyAll (abs s.store) (contOp cfg vic s pc).2.2.2 ∧
+    (match pcOp pc with
+     | some op => (contOp cfg vic s pc).2.2.1.filterMap (evOf op)
+     | none => []) = (contOp cfg vic s pc).2.2.2.filter isClient := by
+  cases pc with
+  | idle => exact ⟨trivial, rfl, rfl⟩
+  | xRemove g k sz => exact hpc.elim
+  | xCount g sz => exact hpc.elim
+  | xBytes g sz => exact hpc.elim
+  | pEvict a => simp only [contOp]; split <;> exact ⟨trivial, rfl, rfl⟩
+  | eLoad a => simp only [contOp]; split <;> exact ⟨trivial, rfl, rfl⟩
+  | eSnap a n => exact ⟨trivial, rfl, rfl⟩
+  | eRemove a k vs =>
+    cases hl : lookup k s.store with
+    | none => rw [contOp_eRemove_none cfg vic s hl]; exact ⟨trivial, rfl, rfl⟩
+    | some e =>
+      rw [contOp_eRemove_some cfg vic s hl]
+      refine ⟨⟨trivial, trivial⟩, ?_, rfl⟩
+      show abs (erase k s.store) = fun k' => if k' = k then none else abs s.store k'
+      exact abs_erase k s.store
+  | eCount a sz vs => exact ⟨trivial, rfl, rfl⟩
+  | eBytes a sz vs => exact ⟨trivial, rfl, rfl⟩
+  | pInsert a =>
+    cases hl : lookup a.k s.store with
+    | none =>
+      rw [contOp_pInsert_none cfg vic s hl]
+      refine ⟨⟨trivial, trivial⟩, ?_, rfl⟩
+      show abs ((a.k, _) :: erase a.k s.store) = fun k' => if k' = a.k then some a.v else abs s.store k'
+      exact abs_cons_erase _ _ _
+    | some e =>
+      rw [contOp_pInsert_some cfg vic s hl]
+      refine ⟨⟨trivial, trivial⟩, ?_, rfl⟩
+      show abs ((a.k, _) :: erase a.k s.store) = fun k' => if k' = a.k then some a.v else abs s.store k'
+      exact abs_cons_erase _ _ _
+  | pReplBytes n o => exact ⟨trivial, rfl, rfl⟩
+  | pNewCount sz => exact ⟨trivial, rfl, rfl⟩
+  | pNewBytes sz => exact ⟨trivial, rfl, rfl⟩
+  | rCount sz => exact ⟨trivial, rfl, rfl⟩
+  | rBytes sz => exact ⟨trivial, rfl, rfl⟩
+  | cCount => exact ⟨trivial, rfl, rfl⟩
+  | cBytes => exact ⟨trivial, rfl, rfl⟩
+
+/-- the client events a list of answers stands for -/
+def evsOf (rs : List (Op × Out)) : List Ev := rs.filterMap (fun r => evOf r.1 r.2)
+
+theorem evsOf_map (op : Op) (outs : List Out) :
+    evsOf (outs.map (fun o => (op, o))) = outs.filterMap (evOf op) := by
+  unfold evsOf
+  rw [List.filterMap_map]
+  rfl
+
+/-- one step: its events are a legal continuation, they account for the change of the map,
+and the answers the thread records are exactly its client events -/
+theorem step_lin {t : Thread} (hs : NoShort s.store) (ht : ThreadOk true t) :
+    Legal (abs s.store) (step cfg vic s t).2.2 ∧
+    abs (step cfg vic s t).1.store = applyAll (abs s.store) (step cfg vic s t).2.2 ∧
+    evsOf (step cfg vic s t).2.1.results = evsOf t.results ++ (step cfg vic s t).2.2.filter isClient := by
+  by_cases hpc : t.pc = .idle
+  · cases htd : t.todo with
+    | nil =>
+      rw [step_idle_nil cfg vic s hpc htd]
+      refine ⟨trivial, rfl, ?_⟩
+      simp only [List.filter_nil, List.append_nil]
+    | cons op rest =>
+      rw [step_idle_cons cfg vic s hpc htd]
+      have h := startOp_lin cfg (s := MemCache.tick s) (op := op) hs
+      refine ⟨h.1, h.2.1, ?_⟩
+      show evsOf (t.results ++ _) = _
+      unfold evsOf
+      rw [List.filterMap_append]
+      congr 1
+      exact (evsOf_map op _).trans h.2.2
+  · rw [step_cont cfg vic s hpc]
+    have h := contOp_lin cfg vic (s := MemCache.tick s) ht.1
+    refine ⟨h.1, h.2.1, ?_⟩
+    show evsOf (t.results ++ _) = _
+    unfold evsOf
+    rw [List.filterMap_append]
+    congr 1
+    rw [← h.2.2]
+    cases pcOp t.pc with
+    | none => rfl
+    | some op => exact evsOf_map op _
+
+theorem legal_append : ∀ (a b : List Ev) (r : Ref), Legal r (a ++ b) ↔ Legal r a ∧ Legal (applyAll r a) b := by
+  intro a
+  induction a with
+  | nil => intro b r; simp only [List.nil_append, Legal, true_and]; rfl
+  | cons e l ih =>
+    intro b r
+    simp only [List.cons_append, Legal, ih, and_assoc]
+    rfl
+
+theorem applyAll_append (a b : List Ev) (r : Ref) : applyAll r (a ++ b) = applyAll (applyAll r a) b := by
+  unfold applyAll; rw [List.foldl_append]
+
+/-- the client events of thread `i` in the log, in order -/
+def clientLog (i : Nat) (log : List (Nat × Ev)) : List Ev :=
+  ((log.filter (fun p => p.1 == i)).map (·.2)).filter isClient
+
+theorem clientLog_append_self (i : Nat) (log : List (Nat × Ev)) (evs : List Ev) :
+    clientLog i (log ++ evs.map (fun e => (i, e))) = clientLog i log ++ evs.filter isClient := by
+  unfold clientLog
+  rw [List.filter_append, List.map_append, List.filter_append]
+  congr 2
+  induction evs with
+  | nil => rfl
+  | cons e l ih => simp only [List.map_cons, List.filter_cons, beq_self_eq_true, if_true, ih]
+
+theorem clientLog_append_ne {i j : Nat} (h : i ≠ j) (log : List (Nat × Ev)) (evs : List Ev) :
+    clientLog j (log ++ evs.map (fun e => (i, e))) = clientLog j log := by
+  unfold clientLog
+  rw [List.filter_append, List.map_append, List.filter_append]
+  have : (evs.map (fun e => (i, e))).filter (fun p => p.1 == j) = [] := by
+    induction evs with
+    | nil => rfl
+    | cons e l ih =>
+      have hne : (i == j) = false := by simpa using h
+      simp only [List.map_cons, List.filter_cons, hne, ih]
+      rfl
+  rw [this]
+  simp only [List.map_nil, List.filter_nil, List.append_nil]
+
+theorem map_snd_tag (i : Nat) (evs : List Ev) : (evs.map (fun e => (i, e))).map (·.2) = evs := by
+  induction evs with
+  | nil => rfl
+  | cons e l ih => simp only [List.map_cons, ih]
+
+/-- the linearisation invariant: the ghost log is a legal sequential history from the initial
+map, it ends in the stored map, and every thread's answers are its client events of the log -/
+structure LInv (r0 : Ref) (y : Sys State Thread Ev) : Prop where
+  nodup : NoDup y.shared.store
+  noshort : NoShort y.shared.store
+  ok : ∀ t ∈ y.threads, ThreadOk true t
+  legal : Legal r0 (y.log.map (·.2))
+  final : abs y.shared.store = applyAll r0 (y.log.map (·.2))
+  answers : ∀ i t, y.threads[i]? = some t → evsOf t.results = clientLog i y.log
+
+theorem linv_stepAt {r0 : Ref} (y : Sys State Thread Ev) (i : Nat) (h : LInv r0 y) :
+    LInv r0 (stepAt (machine cfg vic) y i) := by
+  rcases stepAt_cases (machine cfg vic) y i with heq | ⟨t, hget, _, heq⟩
+  · rw [heq]; exact h
+  · rw [heq]
+    have htm : t ∈ y.threads := mem_of_getElem? hget
+    have hok := step_ok cfg vic h.nodup h.noshort (h.ok t htm)
+    have hl := step_lin cfg vic h.noshort (h.ok t htm)
+    refine ⟨hok.1, hok.2.1, ?_, ?_, ?_, ?_⟩
+    · intro u hu
+      rcases List.mem_or_eq_of_mem_set hu with hu | rfl
+      · exact h.ok u hu
+      · exact hok.2.2
+    · show Legal r0 ((y.log ++ (step cfg vic y.shared t).2.2.map (fun e => (i, e))).map (·.2))
+      rw [List.map_append, map_snd_tag, legal_append, ← h.final]
+      exact ⟨h.legal, hl.1⟩
+    · show abs (step cfg vic y.shared t).1.store =
+        applyAll r0 ((y.log ++ (step cfg vic y.shared t).2.2.map (fun e => (i, e))).map (·.2))
+      rw [List.map_append, map_snd_tag, applyAll_append, ← h.final]
+      exact hl.2.1
+    · intro j u hu
+      show evsOf u.results = clientLog j (y.log ++ (step cfg vic y.shared t).2.2.map (fun e => (i, e)))
+      have hu' : (y.threads.set i (step cfg vic y.shared t).2.1)[j]? = some u := hu
+      by_cases hij : i = j
+      · subst hij
+        have hlt : i < y.threads.length := (List.getElem?_eq_some_iff.mp hget).1
+        rw [List.getElem?_set_self hlt] at hu'
+        cases hu'
+        rw [clientLog_append_self, ← h.answers i t hget]
+        exact hl.2.2
+      · rw [List.getElem?_set_ne hij] at hu'
+        rw [clientLog_append_ne hij]
+        exact h.answers j u hu'
+
 end Cascette.Proofs.MemConc
